@@ -84,6 +84,11 @@ def c10_scripts(rng, tier, model_prefixes):
                         o["mask"] = [rng.random() < 0.5 for _ in range(n["ch"])]
             if rng.random() < 0.3:
                 suf.append({"op": "partial", "k": rng.choice([-1, 1, 2])})
+            if rng.random() < 0.4:
+                # the first call after the reset is a rejected one (both twins make it)
+                bad = {"op": "bad", "via": rng.choice(["into", "slices", "vec_into"])}
+                bad.update(rng.choice([{"in_ch": 1}, {"out_ch": -1}, {"out_ch": 1}, {"in_ch": -1}, {"mask_len": 1}]))
+                suf.insert(rng.choice([0, 0, 1]), bad)
             ops = list(pre) + [{"op": "note", "twin": "full", "a": 0, "b": 1}, {"op": "reset", "id": 0}, with_id(n, 1)]
             for o in suf:
                 ops += [with_id(o, 0), with_id(o, 1)]
@@ -420,15 +425,52 @@ def c18_scripts(rng, tier, schedules):
         if kind == "FftFixedOut":
             per_in = max(1, n["chunk"] * n["fs_in"] // n["fs_out"])
         calls = [{"op": "process"}] * min(400, need // max(1, per_in) + 3)
+        # unrelated resamplers constructed (and used once) on the same thread in between: another family,
+        # and - process-wide or per-thread caches keyed too coarsely - the SAME family with related
+        # parameters (same input rate / block size, other output rate; other filter length, ...)
+        inter = []
         o = gen.new_op(rng, other)
         o.pop("probe", None)
         o["signal"] = "noise"
         o["ch"] = 1
+        inter.append(o)
+        rel = dict(n)
+        if kind in gen.FFT:
+            from math import gcd as _g
+            # same input block size, other output rate: output rates with the same reduced input rate
+            a0 = n["fs_in"] // _g(n["fs_in"], n["fs_out"])
+            cands = [x for x in gen.RATES + list(range(1, 40)) + [n["fs_out"] * 2, n["fs_out"] * 3, n["fs_out"] + 1]
+                     if x != n["fs_out"] and n["fs_in"] // _g(n["fs_in"], x) == a0
+                     and max(n["fs_in"], x) // _g(n["fs_in"], x) <= 2000]
+            if n["kind"] == "FftFixedOut" or not cands:
+                rel["kind"] = rng.choice(gen.FFT)
+                rel["fs_out"] = (rng.choice(cands) if cands else n["fs_out"] * 2)
+            else:
+                rel["fs_out"] = rng.choice(cands)
+        elif kind.startswith("Sinc"):
+            rel["L"] = rng.choice([8, 16, 32, 64, 128, 256])
+            rel["F"] = rng.choice([2, 4, 16, 128])
+            rel["window"] = rng.choice(gen.WINDOWS)
+            rel["r"] = gen.rj(rng.choice(gen.RATIOS))
+        else:
+            rel["degree"] = rng.choice(gen.DEGREES)
+            rel["r"] = gen.rj(rng.choice(gen.RATIOS))
+        rel["signal"] = "noise"
+        inter.append(rel)
         ops = [{"op": "note", "twin": "full", "a": 0, "b": 1}]
+        # the related one is sometimes built BEFORE the reference as well (construction order matters)
+        if rng.random() < 0.5:
+            ops += [with_id(inter[1], 10), {"op": "process", "id": 10}]
+            inter = inter[:1] + [dict(inter[1])]
         ops += [with_id(n, 0)] + [with_id(c, 0) for c in calls]
-        ops += [with_id(o, 9), {"op": "process", "id": 9}]
+        for j, o2 in enumerate(inter):
+            if rng.random() < 0.8:
+                ops += [with_id(o2, 9 + 2 * j), {"op": "process", "id": 9 + 2 * j}]
         mig = rng.random() < 0.5
-        ops.append(with_id(n, 1))
+        tw = with_id(n, 1)
+        if rng.random() < 0.5:
+            tw["thread"] = rng.randrange(1, 4)      # constructed on a fresh thread (empty thread-local state)
+        ops.append(tw)
         for c in calls:
             c2 = with_id(c, 1)
             if mig:
